@@ -1067,7 +1067,18 @@ impl<'a, 'b> Renderer<'a, 'b> {
         }
         if !generic && self.take(Feat::Interface) {
             let name = self.fresh("I");
-            if props.len() >= 2 && self.s.chance(1, 2) {
+            if props.len() >= 2 && self.s.chance(1, 4) {
+                // nothing of its own: the interface is just its two parents (still one closed object type)
+                self.mark("interface_extends_many_empty_body");
+                let cut = self.s.range(1, props.len() - 1);
+                let (b1, b2) = (self.fresh("B"), self.fresh("B"));
+                let a = self.members_detached(&props[..cut]);
+                let b = self.members_detached(&props[cut..]);
+                let doc = self.doc();
+                self.decls.push(format!("{}interface {} {{ {} }}", doc, b1, a));
+                self.decls.push(format!("interface {} {{ {} }}", b2, b));
+                self.decls.push(format!("interface {} extends {}, {} {{}}", name, b1, b2));
+            } else if props.len() >= 2 && self.s.chance(1, 2) {
                 self.mark("interface_extends");
                 let cut = self.s.range(1, props.len() - 1);
                 let base = self.fresh("B");
